@@ -440,3 +440,7 @@ def replay(path):
         print("VIOLATION property=%s replay=%s" % (PROP, path))
         print("  sig=%s :: %s" % (v["sig"], v["msg"][:300]))
     return 1 if res.violations else 0
+
+
+# (what later rounds of seeded changes added to the workload; part of the evidence's description of the check)
+RULE += "; " + "a bare repository with an event at the default calendar's path; an untyped collection with an event stays a calendar when a text file is added; the address book home deleted before a --defaults restart of the CLI server; a server that does not start again is a violation"
